@@ -39,6 +39,21 @@ def classify(topo):
     return sorted(set(labels)), nt
 
 
+def last_pulse_only(topo, cur, w, e):
+    """current of the highest-numbered pulse through end e of object w, with its sign"""
+    n = len(topo.objs[w]['segs']) - 1
+    seg = 0 if e == 0 else n - 1
+    endpt = topo.objs[w]['segs'][0 if e == 0 else n]
+    best = 0j
+    for p in topo.pulses:
+        if p.kind == 'gnd' or np.linalg.norm(p.pt - endpt) > 2 * topo.tol + 1e-12:
+            continue
+        for (ow, os_, sense) in p.legs:
+            if ow == w and os_ == seg:
+                best = sense * cur[p.idx]
+    return best
+
+
 def check(case):
     why = rules.check(case, check_seg=False)
     if why:
@@ -64,6 +79,7 @@ def check(case):
         return Result(fails=[('structure:block-count', '%d blocks for %d objects' % (len(rep['currents']), len(topo.objs)))],
                       nontrivial=nt, labels=labels)
     printed = {}
+    defect = {}
     for w, blk in enumerate(rep['currents']):
         rows = blk['rows']
         n = len(topo.objs[w]['segs']) - 1
@@ -96,7 +112,14 @@ def check(case):
             if abs(val - ref) > 5e-6 * max(abs(ref), abs(val)) + 2e-7 * imax:
                 j = topo.junctions[topo.junc_of[(w, e)]]
                 kind = 'rep' if j[0] == (w, e) else 'member'
-                fails.append(('J-value:%s-end%d:deg%s' % (kind, e + 1, '2' if len(j) == 2 else '>=3'),
+                sig = 'J-value:%s-end%d:deg%s' % (kind, e + 1, '2' if len(j) == 2 else '>=3')
+                if kind == 'rep' and e == 0 and len(j) >= 3:
+                    # which single pulse would explain the printed value?
+                    alt = last_pulse_only(topo, cur, w, e)
+                    if abs(val - alt) <= 5e-6 * abs(alt) + 2e-7 * imax:
+                        sig += ':last-pulse-only'
+                        defect[topo.junc_of[(w, e)]] = alt - ref
+                fails.append((sig,
                               'object %d (tag %d) end %d prints %r, pulse currents through this end sum to %r '
                               '(%d pulses)' % (w, blk['tag'], e + 1, val, ref, cnt)))
         # numbered rows carry the pulse currents
@@ -114,6 +137,11 @@ def check(case):
         tot = sum(printed[(w, e)] * (1 if e == 1 else -1) for (w, e) in j)
         big = max(abs(printed[k]) for k in j)
         if abs(tot) > 2e-5 * big + 1e-7 * imax:
-            fails.append(('kcl:deg%s' % ('2' if len(j) == 2 else '>=3'),
+            sig = 'kcl:deg%s' % ('2' if len(j) == 2 else '>=3')
+            jx = topo.junc_of[j[0]]
+            if jx in defect and abs(tot + defect[jx]) <= 2e-5 * big + 1e-7 * imax:
+                # entirely explained by the (separately reported) wrong J value of the first end
+                sig = 'kcl:rep-end1-multi:last-pulse-only'
+            fails.append((sig,
                           'junction %s: printed end currents sum to %r (largest term %g)' % (j, tot, big)))
     return Result(fails=fails, nontrivial=nt, labels=labels)
